@@ -74,6 +74,14 @@ class Term(object):
         return "%s(%s)" % (self.op, ",".join(map(repr, self.args)))
 
 
+class AJoin(Term):
+    """sep.join(list) of an abstract list: a term that keeps the list."""
+
+    def __init__(self, sep, alist):
+        Term.__init__(self, "join", Term(repr(sep)), Term(repr(alist)))
+        self.sep, self.alist = sep, alist
+
+
 class AObj(object):
     def __init__(self, cls: ClassInfo, attrs: Optional[Dict[str, object]] = None, name: str = ""):
         self.cls = cls
@@ -190,6 +198,7 @@ class AList(object):
         self.items = list(items)
         self.depth = depth
         self.generic = False
+        self.generic_from = 0  # items before this index were appended once, outside the generic iteration
         self.min_len = 0
         self.uid = origin or "anon"
 
@@ -313,6 +322,36 @@ class ABoolTerm(object):
 # control flow
 
 
+# summaries of repo functions the evaluator applied instead of inlining them; the
+# property run discharges the matching lemma (sa/cli.py) before it reports
+SUMMARIES_USED = set()
+
+
+class AGenCall(object):
+    """A call of a repo generator function used as the iterable of a for loop:
+    its body is run interleaved with the loop body (lazy iteration)."""
+
+    def __init__(self, fi, args, kwargs):
+        self.fi, self.args, self.kwargs = fi, args, kwargs
+
+    def __repr__(self):
+        return "<generator %s>" % self.fi.qualname
+
+
+class ConsumerSignal(Exception):
+    """What the body of a for loop raised while the generator it iterates is
+    suspended at a yield: it does not pass through the generator's handlers
+    (the generator is closed: its finally blocks run)."""
+
+    def __init__(self, sig):
+        self.sig = sig
+
+
+class NoSuchAttr(AnalysisError):
+    """attribute neither on the abstract object nor in its class table: an analysis error when read plainly (the
+    model of the object may be partial), the default when read through getattr(obj, name, default) / hasattr"""
+
+
 class ReturnSig(Exception):
     def __init__(self, value):
         self.value = value
@@ -404,6 +443,7 @@ class Interp(object):
         self.hooks = hooks or {}
         self.step_loop: Optional[ast.AST] = None  # loop evaluated as one inductive step
         self.call_stack: List[str] = []
+        self.frames: List["Frame"] = []  # active repo frames, outermost first
         self.fresh = 0
         self.loop_depth = 0
 
@@ -645,6 +685,13 @@ class Interp(object):
                 return q
         raise AnalysisError("cannot divide %r by %r" % (a, n))
 
+    def table_has(self, table: dict, key) -> bool:
+        """membership of a symbolic key in a table of constant keys: one decision per (table, key) and path"""
+        k = ("table-has", repr(_table_term(table)), repr(key))
+        if k not in self.path.termeq:
+            self.path.termeq[k] = self.path.choose("table-has %r %r" % (_table_term(table), key))
+        return self.path.termeq[k]
+
     def contains(self, container, item):
         if isinstance(container, (list, tuple, str, dict)) and isinstance(item, (str, int)):
             return item in container
@@ -668,6 +715,8 @@ class Interp(object):
             for k in container:
                 if k is item or (isinstance(k, Term) and k == item):
                     return True
+            if isinstance(item, Term) and _const_keys(container):
+                return self.table_has(container, item)
             return False
         if isinstance(container, (AListMap, ACollection, Term)):
             return ABoolTerm("in", item, container)
@@ -693,15 +742,39 @@ class Interp(object):
 
     # -- calls into the repo ------------------------------------------------
 
+    _decorator_cache: Dict[str, object] = {}
+
+    def check_decorators(self, fi: FuncInfo):
+        """Inlining the body of a decorated function is sound only when every
+        decorator is a pass-through (see sa/decorators.py)."""
+        from .decorators import StaticViolation, classify
+
+        key = (id(self.p), fi.qualname)
+        res = self._decorator_cache.get(key)
+        if res is None:
+            res = self._decorator_cache[key] = classify(self.p, fi)
+        for kind, text, detail in res:
+            if kind == "memo":
+                raise StaticViolation("memo-decorator", fi.qualname, "@%s: %s" % (text, detail), fi.where())
+            if kind == "raises":
+                raise RaiseSig(AExc("TypeError", ["raised by the wrapper @%s" % text], {}))
+            if kind == "opaque":
+                raise AnalysisError("%s: decorator @%s of %s: %s" % (fi.where(), text, fi.qualname, detail))
+
     def call_function(self, fi: FuncInfo, args: List[object], kwargs: Dict[str, object], node=None, on_yield=None):
         hook = self.hooks.get(fi.qualname)
         if hook is not None:
             r = hook(self, fi, args, kwargs)
             if r is not NotImplemented:
                 return r
+        if fi.node.decorator_list:
+            self.check_decorators(fi)
         is_gen = _is_generator(fi.node)
         if is_gen and on_yield is None and "contextmanager" in fi.decorators:
             return ACtxMgr(fi, list(args), dict(kwargs))
+        if is_gen and on_yield is None and node is not None and node is getattr(self, "lazy_gen_node", None):
+            self.lazy_gen_node = None
+            return AGenCall(fi, list(args), dict(kwargs))
         if self.depth >= MAX_INLINE_DEPTH:
             raise AnalysisError("inlining depth %d exceeded at %s" % (MAX_INLINE_DEPTH, fi.qualname))
         fn = fi.node
@@ -743,6 +816,7 @@ class Interp(object):
                 env[k] = frame.expr(v[1])
         self.depth += 1
         self.call_stack.append(fi.qualname)
+        self.frames.append(frame)
         saved = self.cur_module
         self.cur_module = fi.module
         try:
@@ -754,6 +828,7 @@ class Interp(object):
         finally:
             self.cur_module = saved
             self.depth -= 1
+            self.frames.pop()
             self.call_stack.pop()
 
     def get_attr_of_obj(self, obj: AObj, name: str, node=None, after: Optional[ClassInfo] = None):
@@ -767,7 +842,7 @@ class Interp(object):
             if obj.attrs.get("__open__"):
                 # state another method would have established: unknown here
                 return Term("unknown-attr:%s" % name, Term(obj.name))
-            raise AnalysisError("%s has no attribute %s" % (obj, name))
+            raise NoSuchAttr("%s has no attribute %s" % (obj, name))
         if isinstance(raw, FuncInfo):
             if raw.kind == "property":
                 key = "%s@%s" % (name, owner.qualname)
@@ -788,6 +863,17 @@ class Interp(object):
             fr = Frame(self, None, {}, module=owner.module)
             return fr.expr(raw)
         raise AnalysisError("cannot evaluate %s.%s" % (obj, name))
+
+    def merged_env(self) -> Dict[str, object]:
+        """the variables of every active frame: the innermost frame's names as they are, outer frames' names prefixed
+        with one ^ per level (a loop-carried state may be split between a generator and the loop that consumes it)"""
+        out: Dict[str, object] = {}
+        n = len(self.frames)
+        for i, f in enumerate(self.frames):
+            pre = "^" * (n - 1 - i)
+            for k, v in f.env.items():
+                out[pre + k] = v
+        return out
 
     def new_term(self, prefix: str) -> Term:
         self.fresh += 1
@@ -966,6 +1052,11 @@ class Frame(object):
                 for t, x in zip(target.elts, v):
                     self.assign(t, x)
                 return
+            if isinstance(v, Term) and not any(isinstance(t, ast.Starred) for t in target.elts):
+                # an opaque pair/tuple: its components are opaque too
+                for i, t in enumerate(target.elts):
+                    self.assign(t, Term("item%d" % i, v))
+                return
             self.unsupported(target, "unpacking of %r" % (v,))
         if isinstance(target, ast.Attribute):
             obj = self.expr(target.value)
@@ -1006,7 +1097,36 @@ class Frame(object):
 
     def for_loop(self, st: ast.For):
         I = self.I
-        it = self.expr(st.iter)
+        if isinstance(st.iter, ast.Call):
+            I.lazy_gen_node = st.iter
+        try:
+            it = self.expr(st.iter)
+        finally:
+            I.lazy_gen_node = None
+        if isinstance(it, AGenCall):
+            broke = []
+
+            def on_yield(value):
+                self.assign(st.target, value)
+                try:
+                    self.block(st.body)
+                except LoopContinue:
+                    pass
+                except LoopBreak:
+                    broke.append(True)
+                    raise ConsumerSignal(None)
+                except (RaiseSig, ReturnSig) as sig:
+                    raise ConsumerSignal(sig)
+                return None
+
+            try:
+                I.call_function(it.fi, it.args, it.kwargs, st, on_yield=on_yield)
+            except ConsumerSignal as cs:
+                if cs.sig is not None:
+                    raise cs.sig
+                return
+            self.block(st.orelse)
+            return
         if isinstance(it, AFeatList):
             coll = it.rec.attrs.get("feature_coll")
             if coll is None:
@@ -1137,7 +1257,7 @@ class Frame(object):
         if st is not I.step_loop:
             self.unsupported(st, "while loop (not designated for inductive evaluation)")
         # record the state at loop entry, then havoc the loop-carried variables
-        I.path.effects.append(("loop-entry", dict(self.env)))
+        I.path.effects.append(("loop-entry", I.merged_env()))
         hav = I.hooks.get("havoc")
         if hav is None:
             self.unsupported(st, "no havoc hook for the loop")
@@ -1153,7 +1273,7 @@ class Frame(object):
                 # the loop is left from inside its body: the walk has ended
                 I.path.choices.append(("loop-break", True))
                 return
-            raise StepDone(dict(self.env))
+            raise StepDone(I.merged_env())
         self.block(st.orelse)
 
     def try_stmt(self, st: ast.Try):
@@ -1364,6 +1484,8 @@ class Frame(object):
                 r = hook(self, base, lo, hi, node)
                 if r is not NotImplemented:
                     return r
+            if base.circular:
+                SUMMARIES_USED.add("getitem")
             L = I.seq_len(base.pieces)
             x = I.norm_bound(lo, L, Aff.const(0))
             y = I.norm_bound(hi, L, L)
@@ -1384,6 +1506,10 @@ class Frame(object):
         if isinstance(base, ACollection):
             # part of the input collection
             return ACollection("%s[%s:%s]" % (base.name, "" if lo is None else lo, "" if hi is None else hi), base.make_elem)
+        if isinstance(base, Term):
+            if lo is None and hi is None:
+                return Term("shallow-copy", base)
+            return Term("slice", base, _t(lo), _t(hi))
         self.unsupported(node, "slice of %r" % (base,))
 
     def index(self, base, idx, node):
@@ -1414,6 +1540,10 @@ class Frame(object):
             k = _hashable(idx)
             if k in base:
                 return base[k]
+            if isinstance(k, Term) and _const_keys(base):
+                # a symbolic key against a table of constant keys
+                if I.table_has(base, k):
+                    return Term("table-value", _table_term(base), k)
             raise RaiseSig(AExc("KeyError", [idx], {}))
         if isinstance(base, AMap):
             return map_getitem(self, base, idx)
@@ -1513,7 +1643,13 @@ class Frame(object):
         if isinstance(l, AList) and isinstance(r, AList):
             out = AList(l.items + r.items, I.loop_depth)
             out.generic = l.generic or r.generic
+            out.generic_from = l.generic_from if l.generic else len(l.items) + r.generic_from
             return out
+        if isinstance(l, str) and isinstance(r, AJoin) and r.sep == "" and isinstance(r.alist, AList):
+            # "prefix" + "".join(items): the same join with the prefix as a once-only first item
+            al = AList([l] + list(r.alist.items), r.alist.depth, origin=r.alist.uid)
+            al.generic, al.min_len, al.generic_from = r.alist.generic, r.alist.min_len, r.alist.generic_from + 1
+            return AJoin("", al)
         if isinstance(l, tuple) and isinstance(r, tuple):
             return l + r
         if isinstance(l, tuple) and isinstance(r, AList) or isinstance(l, AList) and isinstance(r, tuple):
@@ -1526,7 +1662,8 @@ class Frame(object):
         if isinstance(l, ARec) or isinstance(r, ARec):
             for x in (l, r):
                 if isinstance(x, ARec) and x.circular:
-                    # CircularRecord.__add__/__radd__ are repo code (refuse)
+                    # CircularRecord.__add__/__radd__ are repo code (refuse): lemma of the C15 rules
+                    SUMMARIES_USED.add("add-guard")
                     raise RaiseSig(AExc("TypeError", ["ambiguous operation"], {}))
             lp = l.pieces if isinstance(l, (ARec, ASeq)) else None
             rp = r.pieces if isinstance(r, (ARec, ASeq)) else None
@@ -1673,7 +1810,7 @@ class Frame(object):
     def comprehension(self, e, kind):
         I = self.I
         if len(e.generators) != 1:
-            self.unsupported(e, "nested comprehension")
+            return self.nested_comprehension(e)
         g = e.generators[0]
         it = self.expr(g.iter)
         if isinstance(it, AFeatList):
@@ -1758,6 +1895,32 @@ class Frame(object):
             return t
         self.unsupported(e, "comprehension over %r" % (it,))
 
+    def nested_comprehension(self, e):
+        """several `for` clauses: supported when every iterable is a concrete list"""
+        I = self.I
+        out = []
+
+        def rec(k, frame):
+            if k == len(e.generators):
+                out.append(frame.expr(e.elt))
+                return
+            g = e.generators[k]
+            it = frame.expr(g.iter)
+            if isinstance(it, AList) and not it.generic:
+                it = list(it.items)
+            if isinstance(it, str):
+                it = list(it)
+            if not isinstance(it, (list, tuple)):
+                self.unsupported(e, "nested comprehension over %r" % (it,))
+            for x in it:
+                sub = Frame(I, self.fi, dict(frame.env), module=self.m)
+                sub.assign(g.target, x)
+                if all(I.truth(sub.expr(c), c) for c in g.ifs):
+                    rec(k + 1, sub)
+
+        rec(0, self)
+        return AList(out, I.loop_depth)
+
     def e_Starred(self, e):
         return ("starred", self.expr(e.value))
 
@@ -1832,6 +1995,11 @@ class Frame(object):
         # exceptions
         if any(isinstance(c, Ext) and c.dotted in ("builtins.Exception", "builtins.ValueError", "builtins.RuntimeError",
                                                      "builtins.Warning") for c in p.mro(ci)):
+            owner, init = p.class_attr_def(ci, "__init__")
+            if isinstance(init, FuncInfo) and not I.hooks.get("exc_init_summary"):
+                # building the error is repo code too: if its constructor fails, that failure is what propagates
+                probe = AObj(ci, {}, name="exc:" + ci.name)
+                I.call_function(init, [probe] + list(args), dict(kwargs), node)
             return AExc(ci, args, kwargs, where="%s:%s" % (self.m.relpath if self.m else "?", getattr(node, "lineno", "?")))
         if ci.qualname == "moclo.record.CircularRecord":
             return make_circular(self, args, kwargs, node)
@@ -1874,6 +2042,14 @@ def _load(t):
     t2 = copy.copy(t)
     t2.ctx = ast.Load()
     return t2
+
+
+def _const_keys(d: dict) -> bool:
+    return any(isinstance(k, (str, int)) for k in d)
+
+
+def _table_term(d: dict) -> Term:
+    return Term("table", Term(",".join(sorted(str(k) for k in d if isinstance(k, (str, int))))))
 
 
 def _hashable(k):
@@ -1966,6 +2142,12 @@ def lib_getattr(fr: Frame, base, a: str, node):
             return BoundMethod("enzyme", base, a)
         return Term(a, Term("cutter"))
     if isinstance(base, AStruct):
+        if base.kind == "slice":
+            if a in ("start", "stop"):
+                return base.fields["lo" if a == "start" else "hi"]
+            if a == "step":
+                return base.fields.get("step")
+            fr.unsupported(node, "attribute %s of a slice" % a)
         if a in base.fields:
             return base.fields[a]
         if base.kind in ("FeatureLocation", "CompoundLocation", "Location") and a == "parts":
@@ -1978,6 +2160,8 @@ def lib_getattr(fr: Frame, base, a: str, node):
     if isinstance(base, AList):
         return BoundMethod("alist", base, a)
     if isinstance(base, Term):
+        if base.op == "compsite" and a in REGEX_METHODS:
+            return BoundMethod("term", base, a)
         return BoundMethod("term", base, a) if a in TERM_METHODS else Term(a, base)
     if isinstance(base, (AMap, AMapGen)):
         return BoundMethod("map", base, a)
@@ -1994,9 +2178,38 @@ def lib_getattr(fr: Frame, base, a: str, node):
         return BoundMethod("alistmap", base, a)
     if isinstance(base, ACollection):
         return BoundMethod("coll", base, a)
+    if isinstance(base, (ARec, ASeq)) and not _lib_has_attr(base, a):
+        # T3: the attribute is neither a member of the library class nor set on the object in this path
+        kind = ("CircularRecord" if base.circular else "SeqRecord") if isinstance(base, ARec) else ("Seq" if base.kind == "Seq" else base.kind)
+        raise RaiseSig(AExc("AttributeError", ["'%s' object has no attribute '%s'" % (kind, a)], {}))
     fr.unsupported(node, "attribute %s of %r" % (a, base))
 
 
+_LIB_MEMBERS: Dict[str, set] = {}
+
+
+def _lib_has_attr(base, a: str) -> bool:
+    if isinstance(base, ARec):
+        if "rec" not in _LIB_MEMBERS:
+            from Bio.SeqRecord import SeqRecord
+
+            _LIB_MEMBERS["rec"] = set(dir(SeqRecord)) | {"seq", "id", "name", "description", "dbxrefs", "features", "annotations",
+                                                         "letter_annotations", "_seq", "_per_letter_annotations"}
+        return a in _LIB_MEMBERS["rec"] or a in base.attrs
+    if base.kind == "Seq":
+        if "seq" not in _LIB_MEMBERS:
+            from Bio.Seq import Seq
+
+            _LIB_MEMBERS["seq"] = set(dir(Seq)) | {"_data"}
+        return a in _LIB_MEMBERS["seq"]
+    if base.kind == "str":
+        return hasattr(str, a)
+    if base.kind == "list":
+        return hasattr(list, a)
+    return True
+
+
+REGEX_METHODS = {"finditer", "findall", "search", "match", "fullmatch", "split", "sub"}
 TERM_METHODS = {
     "upper", "lower", "casefold", "reverse_complement", "complement", "format", "get", "setdefault", "append", "index",
     "find", "match", "group", "lower", "items", "values", "keys", "startswith", "strip", "splitlines", "pop",
@@ -2054,6 +2267,11 @@ def lib_call_method(fr: Frame, bm: BoundMethod, args, kwargs, node):
         I.path.effects.append(("append-feature", t, args[0]))
         return None
     if bm.kind == "term":
+        if t.op == "compsite" and name in REGEX_METHODS:
+            # Bio.Restriction's precompiled site pattern: a case-sensitive search of the text it is given (T4)
+            up = bool(args) and isinstance(args[0], ASeq) and bool(args[0].upper)
+            I.path.effects.append(("text-search", "compsite." + name, up, args))
+            return Term(name, t, *[_t(a) for a in args])
         if name in ("upper", "lower", "casefold") and not args:
             if t.op in ("upper", "lower", "casefold"):
                 return Term(name, t.args[0])
@@ -2076,6 +2294,8 @@ def lib_call_method(fr: Frame, bm: BoundMethod, args, kwargs, node):
     if bm.kind == "dict":
         if name == "get":
             k = _hashable(args[0])
+            if isinstance(k, Term) and k not in t and _const_keys(t):
+                return Term("table-get", _table_term(t), k, _t(args[1] if len(args) > 1 else None))
             return t.get(k, args[1] if len(args) > 1 else None)
         if name == "setdefault":
             k = _hashable(args[0])
@@ -2101,9 +2321,10 @@ def lib_call_method(fr: Frame, bm: BoundMethod, args, kwargs, node):
             return dict(t)
     if bm.kind == "alist":
         if name == "append":
-            t.items.append(args[0])
-            if t.depth < I.loop_depth:
+            if t.depth < I.loop_depth and not t.generic:
                 t.generic = True
+                t.generic_from = len(t.items)
+            t.items.append(args[0])
             return None
         if name == "extend" and isinstance(args[0], AList):
             t.items.extend(args[0].items)
@@ -2130,6 +2351,8 @@ def lib_call_method(fr: Frame, bm: BoundMethod, args, kwargs, node):
                 return t.join(a0.items)
             if isinstance(a0, (list, tuple)) and all(isinstance(x, str) for x in a0):
                 return t.join(a0)
+            if isinstance(a0, AList):
+                return AJoin(t, a0)
             return Term("join", Term(repr(t)), _t(a0))
         if name in ("lower", "upper") and not args:
             return getattr(t, name)()
@@ -2261,6 +2484,24 @@ def lib_call(fr: Frame, dotted: str, args, kwargs, node):
             return int(v)
     if dotted == "builtins.isinstance":
         return lib_isinstance(fr, args[0], args[1], node)
+    if dotted in ("builtins.getattr", "builtins.hasattr") and len(args) >= 2 and isinstance(args[1], str):
+        try:
+            v = fr.getattr(args[0], args[1], node)
+        except NoSuchAttr:
+            if short == "hasattr":
+                return False
+            if len(args) == 3:
+                return args[2]
+            raise
+        except RaiseSig as rs:
+            if rs.exc.name != "AttributeError":
+                raise
+            if short == "hasattr":
+                return False
+            if len(args) == 3:
+                return args[2]
+            raise
+        return True if short == "hasattr" else v
     if dotted in ("builtins.min", "builtins.max") and len(args) == 2:
         a, b = args
         if isinstance(a, (Aff, int)) and isinstance(b, (Aff, int)):
@@ -2290,6 +2531,13 @@ def lib_call(fr: Frame, dotted: str, args, kwargs, node):
             return divmod(a.c, b.c)
         q = I.floordiv(a, b)
         return (q, a - b.scale(q))
+    if dotted == "builtins.sum" and len(args) == 1 and isinstance(args[0], Term) and args[0].op == "map" and repr(args[0].args[1]) == "1":
+        # sum(1 for _ in xs): a count
+        t = Aff.sym("count(%r)" % (args[0].args[0],))
+        I.path.cons.add(t)
+        return t
+    if dotted == "builtins.reversed" and len(args) == 1 and isinstance(args[0], Term):
+        return Term("reversed", args[0])
     if dotted == "builtins.reversed" and len(args) == 1 and isinstance(args[0], ARange):
         return ARange(args[0].lo, args[0].hi, desc=not args[0].desc)
     if dotted == "builtins.set" and not args:
@@ -2311,9 +2559,11 @@ def lib_call(fr: Frame, dotted: str, args, kwargs, node):
     if dotted == "builtins.iter" and len(args) == 1 and isinstance(args[0], (AList, ACollection)):
         return args[0]
     if dotted == "itertools.chain":
-        items, generic = [], False
+        items, generic, gfrom = [], False, None
         for a in args:
             if isinstance(a, AList):
+                if a.generic and gfrom is None:
+                    gfrom = len(items) + a.generic_from
                 items.extend(a.items)
                 generic = generic or a.generic
             elif isinstance(a, (list, tuple, str)):
@@ -2322,6 +2572,7 @@ def lib_call(fr: Frame, dotted: str, args, kwargs, node):
                 fr.unsupported(node, "itertools.chain of %r" % (a,))
         out = AList(items, I.loop_depth)
         out.generic = generic
+        out.generic_from = gfrom or 0
         return out
     if dotted == "builtins.id" and len(args) == 1:
         return Term("id()", _t(args[0]))
@@ -2431,6 +2682,9 @@ def lib_call(fr: Frame, dotted: str, args, kwargs, node):
 TYPE_TAGS = {
     "Bio.Seq.Seq": "Seq",
     "Bio.SeqRecord.SeqRecord": "SeqRecord",
+    "six.string_types": "str",
+    "six.text_type": "str",
+    "six.integer_types": "int",
 }
 
 
@@ -2452,6 +2706,16 @@ def lib_isinstance(fr: Frame, v, t, node):
         tags = {type(v).__name__}
     elif isinstance(v, AList):
         tags = {"list"}
+    elif isinstance(v, bool):
+        tags = {"bool", "int"}
+    elif v is None:
+        tags = {"NoneType"}
+    elif isinstance(v, Term):
+        # an opaque value: one decision per (value, type test) and path
+        key = ("isinstance", repr(v), repr(ts))
+        if key not in I.path.termeq:
+            I.path.termeq[key] = I.path.choose("isinstance %r %s" % (v, "/".join(getattr(x, "dotted", getattr(x, "qualname", repr(x))).split(".")[-1] for x in ts)))
+        return I.path.termeq[key]
     else:
         fr.unsupported(node, "isinstance of %r" % (v,))
     for x in ts:
